@@ -421,14 +421,29 @@ class StmtMixin:
                 self.exec_block(s.finalbody)
 
     def x_With(self, s):
+        """context managers: objects of modelled classes get their __enter__/__exit__ contracts applied
+        (also on exceptional exit); everything else is an extern value entered as itself"""
+        managers = []
         for it in s.items:
             v = self.eval(it.context_expr)
-            entered = self.engine.with_enter(self, v)
+            entered = v
+            if isinstance(v, SV) and v.ty.name == "Ref":
+                cls = v.ty.args[0].name
+                ct_in = C.find_method_contract(cls, "__enter__")
+                ct_out = C.find_method_contract(cls, "__exit__")
+                if ct_in is not None:
+                    entered = self.apply_contract(ct_in, v, [], {}, s)
+                    managers.append((v, ct_out))
+            else:
+                entered = self.engine.with_enter(self, v)
             if it.optional_vars is not None:
                 self.bind(it.optional_vars, entered)
-        self.exec_block(s.body)
-        for it in s.items:
-            pass
+        try:
+            self.exec_block(s.body)
+        finally:
+            for v, ct_out in reversed(managers):
+                if ct_out is not None:
+                    self.apply_contract(ct_out, v, [None, None, None], {}, s)
 
     # ------------------------------------------------------------------ loops
     def loop_spec(self, node):
